@@ -24,10 +24,13 @@ def repeatBytes : Nat → Bytes → Bytes
 
 /-- `Formatter::pad(s)`: truncate to `precision` chars, then fill up to `width` chars by alignment
     (default left; centre puts the smaller half on the left). -/
+def truncTo (p : Option Nat) (s : Bytes) : Bytes :=
+  match p with
+  | some p => takeChars p s
+  | none => s
+
 def pad (sp : FmtSpec) (s : Bytes) : Bytes :=
-  let s := match sp.prec with
-    | some p => takeChars p s
-    | none => s
+  let s := truncTo sp.prec s
   match sp.width with
   | none => s
   | some w =>
